@@ -56,3 +56,75 @@ Definition window {A} (from_idx : Z) (to_idx : option Z) (rows : list A) : res (
   if total <=? from_idx then Err EValue
   else if to_ - from_idx <? 1 then Err EValue
   else OK (slice from_idx to_ rows).
+
+(* ---- data sources (SourceDataWrapper and subclasses) ---- *)
+
+(* a column: the per-row slots of one data set; a row of a frame: one slot per channel, in frame channel order *)
+Definition zip_rows (cols : list (list slot)) (n : nat) : list (list slot) :=
+  map (fun i => map (fun c => nth i c (0, [])) cols) (seq 0 n).
+
+(* SourceDataWrapper.load_chunk (generic path): per channel, rows [from+start, from+stop) of its data set *)
+Definition load_generic (cols : list (list slot)) (from_idx start stop : Z) : list (list slot) :=
+  zip_rows (map (slice (from_idx + start) (from_idx + stop)) cols) (Z.to_nat (stop - start)).
+
+(* NumpyDataWrapper.load_chunk (direct path, taken when the structured source has exactly the frame's fields):
+   rows [from+start, from+stop) of the source array *)
+Definition load_direct (source_rows : list (list slot)) (from_idx start stop : Z) : list (list slot) :=
+  slice (from_idx + start) (from_idx + stop) source_rows.
+
+(* make_chunked_generator: the rows produced for n = to - from rows *)
+Definition load_all (loader : Z -> Z -> list (list slot)) (n : Z) (chunk : option Z) : list (list slot) :=
+  concat (map (fun '(a, b) => loader a b) (chunk_ranges n chunk)).
+
+(* ---- frame index statistics (FrameItem._compute_spacing_and_direction), exact arithmetic over integer-valued data ---- *)
+
+Fixpoint diffs (l : list Z) : list Z :=
+  match l with
+  | a :: ((b :: _) as r) => (b - a) :: diffs r
+  | _ => []
+  end.
+
+Fixpoint insert_sorted (x : Z) (l : list Z) : list Z :=
+  match l with [] => [x] | y :: r => if x <=? y then x :: l else y :: insert_sorted x r end.
+Definition sort_z (l : list Z) : list Z := fold_right insert_sorted [] l.
+Fixpoint dedup_sorted (l : list Z) : list Z :=
+  match l with
+  | a :: ((b :: _) as r) => if a =? b then dedup_sorted r else a :: dedup_sorted r
+  | _ => l
+  end.
+
+(* twice the numpy median of a non-empty list (the median itself may be a half-integer) *)
+Definition median2 (l : list Z) : Z :=
+  let s := sort_z l in
+  let n := length s in
+  if Nat.even n then nth (n / 2 - 1) s 0 + nth (n / 2) s 0 else 2 * nth (n / 2) s 0.
+
+(* direction: None when constant or non-monotonic *)
+Definition direction_of (du : list Z) : option bool :=
+  if forallb (Z.eqb 0) du then None
+  else if forallb (fun d => 0 <=? d) du then Some true
+  else if forallb (fun d => d <=? 0) du then Some false
+  else None.
+
+(* spacing as twice its value (a half-integer median is possible); (1 - d/median)^2 < 1/1000 in exact arithmetic *)
+Definition spacing2_of (ds du : list Z) : option Z :=
+  match du with
+  | [d] => Some (2 * d)
+  | _ =>
+      let m2 := median2 ds in
+      if m2 =? 0 then None
+      else if forallb (fun d => 1000 * (m2 - 2 * d) * (m2 - 2 * d) <? m2 * m2) du then Some m2 else None
+  end.
+
+Record istats := { is_min : Z; is_max : Z; is_spacing2 : option Z; is_direction : option bool }.
+
+Definition index_stats (rows : list Z) : option istats :=
+  match rows with
+  | [] => None
+  | x :: r =>
+      let ds := diffs rows in
+      let du := dedup_sorted (sort_z ds) in
+      Some {| is_min := fold_right Z.min x r; is_max := fold_right Z.max x r;
+              is_spacing2 := match ds with [] => None | _ => spacing2_of ds du end;
+              is_direction := match ds with [] => None | _ => direction_of du end |}
+  end.
